@@ -486,3 +486,20 @@ package types
 //@   ensures def: result == (*h.crtFilename != "" || (*h.useDefaultCrt && *h.followRedirect))
 //@ end
 
+
+// C17 — the delta handed to the acme queue is computed after equal add/del pairs
+// were cancelled (an unchanged secret is not enqueued again); callers expand
+// these two functions in place
+//@ count AcmeShrink = (*AcmeStorages).shrink
+//@ func (*AcmeStorages).BuildAcmeStoragesAdd
+//@   props C17
+//@   inline
+//@   requires wf: acmeWF(c)
+//@   at call buildAcmeStorages#1 assert shrunk: calls(AcmeShrink) == 1
+//@ end
+//@ func (*AcmeStorages).BuildAcmeStoragesDel
+//@   props C17
+//@   inline
+//@   requires wf: acmeWF(c)
+//@   at call buildAcmeStorages#1 assert shrunk: calls(AcmeShrink) == 1
+//@ end
